@@ -210,6 +210,8 @@ impl<Key, Value> CommandExecutor<Key, Value>
             put_parameters.delete_hook,
         );
         if let CommandStatus::Accepted = status {
+            #[cfg(cached_verif)]
+            crate::cache::verif::point("worker.put.after_admission");
             put_parameters.store.put(
                 put_parameters.key_description.clone_key(),
                 put_parameters.value,
@@ -230,6 +232,8 @@ impl<Key, Value> CommandExecutor<Key, Value>
             put_with_ttl_parameter.put_parameter.delete_hook,
         );
         if let CommandStatus::Accepted = status {
+            #[cfg(cached_verif)]
+            crate::cache::verif::point("worker.put.after_admission");
             let expiry = put_with_ttl_parameter.put_parameter.store.put_with_ttl(
                 put_with_ttl_parameter.put_parameter.key_description.clone_key(),
                 put_with_ttl_parameter.put_parameter.value,
